@@ -6,6 +6,7 @@ Import ListNotations.
 Open Scope Z_scope.
 
 Ltac inv H := inversion H; subst; clear H.
+Arguments push_bytes : simpl never.
 
 Lemma bind_ok : forall {A B} (m : res A) (f : A -> res B) b,
   bind m f = Ok b -> exists a, m = Ok a /\ f a = Ok b.
@@ -111,7 +112,8 @@ Section Proofs.
     - inv R. apply bind_ok in E as (v & _ & E). apply push_n_len in E. rewrite E. cbn. lia.
     - apply bind_ok in R as (s1 & _ & R). inv R. destruct (slookup tbl "JUMPDEST"); inv E. reflexivity.
     - inv R. apply bind_ok in E as (v & _ & E). apply push_n_len in E. rewrite E. cbn. lia.
-    - apply bind_ok in R as (v & G & R). inv R. rewrite G in E. cbn in E. inv E. reflexivity.
+    - apply bind_ok in R as (v & G & R). inv R. rewrite G in E. cbn in E.
+      destruct (forallb byte_ok (push_bytes push0 (v + o))); inv E. reflexivity.
     - inv R. inv E. reflexivity.
     - inv R. apply bind_ok in E as (v & _ & E). apply to_bytes2_ok in E as (_ & ->).
       unfold zlen. rewrite be_n_length. reflexivity.
@@ -256,7 +258,8 @@ Section Proofs.
       (0 <= v + o -> exists imm, b = (PUSH_OFFSET + zlen imm) :: imm /\ be_val imm = v + o /\
                                  List.length imm = push_width_spec push0 (v + o) /\ Forall is_byte imm).
   Proof.
-    intros sm cm c o b H. cbn in H. apply bind_ok in H as (v & G & H). apply get_ok in G. inv H.
+    intros sm cm c o b H. cbn in H. apply bind_ok in H as (v & G & H). apply get_ok in G.
+    destruct (forallb byte_ok (push_bytes push0 (v + o))); inv H.
     exists v. repeat split; try assumption. intro P.
     destruct (push_bytes_shape push0 (v + o) P) as (imm & E & L & V & F). exists imm. auto.
   Qed.
@@ -330,7 +333,8 @@ Section Proofs.
     - apply bind_ok in Ei as (v & _ & Ei). apply push_n2_explicit in Ei as (_ & ->). eauto.
     - rewrite jumpdest_byte in Ei. inv Ei. eauto.
     - apply bind_ok in Ei as (v & _ & Ei). apply push_n2_explicit in Ei as (_ & ->). eauto.
-    - apply bind_ok in Ei as (v & _ & Ei). inv Ei. unfold push_bytes. eauto.
+    - apply bind_ok in Ei as (v & _ & Ei). destruct (forallb byte_ok (push_bytes push0 (v + o))); inv Ei.
+      unfold push_bytes. eauto.
   Qed.
 
   Lemma scan_reaches_head : forall cm sm asm pend bs pc p h s, is_head tbl h = true ->
@@ -345,13 +349,7 @@ Section Proofs.
       + (* the label is the head *)
         inv S. exists []. split; [reflexivity |]. rewrite zlen_nil, Z.add_0_r.
         destruct pend; [| destruct h; try discriminate W; discriminate HD].
-        assert (exists b rest, bi = b :: rest) as (b & rest & ->).
-        { destruct h as [nm | n | l | l | l o | c o | db | l | l | c v]; try discriminate HD; cbn in Ei, HD.
-          - destruct (String.eqb nm "DEBUG"); [discriminate HD |]. destruct (slookup tbl nm); inv Ei. eauto.
-          - apply bind_ok in Ei as (v & _ & Ei). apply push_n2_explicit in Ei as (_ & ->). eauto.
-          - rewrite jumpdest_byte in Ei. inv Ei. eauto.
-          - apply bind_ok in Ei as (v & _ & Ei). apply push_n2_explicit in Ei as (_ & ->). eauto.
-          - apply bind_ok in Ei as (v & _ & Ei). inv Ei. unfold push_bytes. eauto. }
+        destruct (head_emits_nonempty sm cm h bi HD Ei) as (b & rest & ->).
         cbn [app scan In]. left. reflexivity.
       + inv S.
         destruct pend as [| pd].
